@@ -302,6 +302,8 @@ pub proof fn axiom_url_slash_ok(x: Seq<char>)
 
 // when process_static_resources reported an error (code e), the response carries that code
 pub open spec fn error_status_kept(e: int, status: int) -> bool { e != -1 ==> status == e }
+// the lookup returns Ok only if no call of the range pipeline it made reported an error (the 416 of a bad Range is not swallowed)
+pub open spec fn range_error_kept(failed: bool) -> bool { !failed }
 
 // the Range value the static controller hands to the range pipeline
 pub open spec fn effective_range(hs: Seq<Header>) -> Seq<char> {
